@@ -349,6 +349,21 @@ def main(argv):
             if extra:
                 broken.append({"axioms": extra})
 
+    # thorough tier: re-check the compiled property file and everything it depends on with the
+    # independent checker coqchk, which also prints the axioms of every loaded library
+    coqchk = None
+    if tier == "thorough" and pf["ok"] and not args.replay:
+        t1 = time.time()
+        try:
+            with Lock("coq"):
+                p = subprocess.run(["timeout", "3000", "coqchk", "-silent", "-o", "-Q", os.path.join(COQ, "theories"), "Ygot",
+                                    "Ygot.Properties." + pid], cwd=COQ, stdout=subprocess.PIPE, stderr=subprocess.STDOUT, text=True)
+            coqchk = {"exit": p.returncode, "wall_s": round(time.time() - t1, 1), "output_tail": p.stdout[-1500:]}
+            if p.returncode != 0:
+                broken.append({"theorem_files": ["coqchk Ygot.Properties.%s" % pid], "output": p.stdout[-1500:]})
+        except Exception as e:  # coqchk missing or killed
+            coqchk = {"exit": None, "error": str(e)}
+
     # 2. Go side
     streams_out = []
     if spec.get("streams"):
@@ -463,6 +478,7 @@ def main(argv):
         "partial": spec.get("partial", ""),
         "explanation": spec.get("explanation", ""),
         "notes": notes + gen_info.get("notes", []),
+        "coqchk": coqchk,
     }
     if gen_info.get("coverage"):
         cov.update(gen_info["coverage"])
